@@ -527,7 +527,9 @@ func (m *Manager) acquireTasks(envId uid.ID, taskDescriptors Descriptors) (err e
 
 			deployedTasks = make(DeploymentMap)
 
-			outcomeCh := make(chan ResourceOffersOutcome)
+			// buffered: the scheduler reports the outcome of the offers round with a non-blocking send,
+			// which must not be lost if the round completes before we start receiving below
+			outcomeCh := make(chan ResourceOffersOutcome, 1)
 			m.tasksToDeploy <- &ResourceOffersDeploymentRequest{
 				tasksToDeploy: tasksToRun,
 				envId:         envId,
